@@ -47,7 +47,10 @@ func (lookup *TypeLookup) AddUserType(t *UserType) error {
 			return nil
 		case *BuiltinType:
 			// The parser should prevent this from ever happening
-			return &userBaseTypeNameError
+			return &wrapError{
+				innerError: &userBaseTypeNameError,
+				loc:        t.Node.Loc,
+			}
 		case AstNodable:
 			return &wrapError{
 				innerError: &duplicateOfStructTypeError,
@@ -88,7 +91,12 @@ func (lookup *TypeLookup) AddStructType(t *StructType) error {
 			}
 		case *BuiltinType:
 			// The parser should prevent this from ever happening
-			return fmt.Errorf("type name conflicts with a base type")
+			return &wrapError{
+				innerError: &IncompatibleTypeError{
+					Message: "type name conflicts with a base type",
+				},
+				loc: t.Node.Loc,
+			}
 		case AstNodable:
 			return &wrapError{
 				innerError: &duplicateOfStructTypeError,
